@@ -189,7 +189,11 @@ func (d *Dialer) Dial(ctx context.Context, addr jid.JID) (net.Conn, error) {
 			return conn, err
 		}
 	}
-	return conn, err
+	if err == nil {
+		// Every endpoint was skipped.
+		err = fmt.Errorf("websocket: no usable XMPP websocket endpoint found on %s", addr.Domainpart())
+	}
+	return nil, err
 }
 
 // DialDirect dials the websocket endpoint without performing any Web Host
